@@ -47,16 +47,16 @@ VARIABLES cfg,       \* [n, budget, cpus] - arguments / environment, fixed in In
           fresh,     \* smallest pid never handed out
           val,       \* return value (pc = "ret") / exit code (pc = "exit")
           err,       \* "none" | "fail" (pc = "raise")
-          tid,       \* what task_id() returns in this process (NoTid = None)
+          selfid,    \* what task_id() returns in this process (NoTid = None)
           step
 
-vars == <<cfg, pc, forkId, owner, slot, starts, abn, restarts, reaped, fresh, val, err, tid>>
+vars == <<cfg, pc, forkId, owner, slot, starts, abn, restarts, reaped, fresh, val, err, selfid>>
 
 N == IF cfg.n = NoN \/ cfg.n <= 0 THEN cfg.cpus ELSE cfg.n
 B == IF cfg.budget = NoBudget THEN 100 ELSE cfg.budget
 Live == 0..(N - 1)
 
-Proj == [pc |-> pc, val |-> val, err |-> err, tid |-> tid]
+Proj == [pc |-> pc, val |-> val, err |-> err, tid |-> selfid]
 Obs(a, args) == [act |-> a, args |-> args, exp |-> Proj']
 
 InitWith(c) ==
@@ -72,8 +72,8 @@ InitWith(c) ==
     /\ fresh = 1
     /\ val = 0
     /\ err = "none"
-    /\ tid = NoTid
-    /\ step = [act |-> "init", args |-> <<>>, exp |-> [pc |-> pc, val |-> val, err |-> err, tid |-> tid]]
+    /\ selfid = NoTid
+    /\ step = [act |-> "init", args |-> <<>>, exp |-> [pc |-> pc, val |-> val, err |-> err, tid |-> selfid]]
 
 InitState == \E c \in [n : Ns, budget : Budgets, cpus : Cpus] :
                  /\ (c.n # NoN /\ c.n > 0) => c.cpus = 1        \* cpus only matters for autodetection
@@ -94,7 +94,7 @@ ForkParent(p) ==
     /\ IF Unstarted(slot') # {}
          THEN pc' = "fork" /\ forkId' = Min(Unstarted(slot'))     \* initial start-up, ids in order
          ELSE pc' = "wait" /\ forkId' = NoId
-    /\ UNCHANGED <<cfg, abn, restarts, val, err, tid>>
+    /\ UNCHANGED <<cfg, abn, restarts, val, err, selfid>>
     /\ step' = Obs("fork_parent", <<p>>)
 
 (* os.fork() returns 0: this process is the new worker; fork_processes returns its id *)
@@ -102,7 +102,7 @@ ForkChild ==
     /\ pc = "fork"
     /\ pc' = "ret"
     /\ val' = forkId
-    /\ tid' = forkId
+    /\ selfid' = forkId
     /\ slot' = [slot EXCEPT ![forkId] = "running"]
     /\ starts' = [starts EXCEPT ![forkId] = @ + 1]
     /\ forkId' = NoId
@@ -129,7 +129,7 @@ Wait(p, st) ==
                  /\ IF restarts' > B
                       THEN pc' = "raise" /\ err' = "fail" /\ forkId' = NoId
                       ELSE pc' = "fork" /\ err' = err /\ forkId' = i
-    /\ UNCHANGED <<cfg, starts, fresh, tid>>
+    /\ UNCHANGED <<cfg, starts, fresh, selfid>>
     /\ step' = Obs("wait", <<p, st, Encode(st)>>)
 
 (* os.wait() reports a pid that is not one of our live workers: ignored *)
@@ -197,8 +197,8 @@ SuccessOnlyAfterAllNormal ==
 
 (* the worker sees its own id, the supervisor has none *)
 ChildSeesOwnId ==
-    /\ pc = "ret" => (val \in Live /\ tid = val /\ slot[val] = "running" /\ \A p \in Pids : owner[p] # val)
-    /\ pc # "ret" => tid = NoTid
+    /\ pc = "ret" => (val \in Live /\ selfid = val /\ slot[val] = "running" /\ \A p \in Pids : owner[p] # val)
+    /\ pc # "ret" => selfid = NoTid
 
 (* a worker that exited normally is never restarted *)
 NormalNeverRestarted == [][\A i \in Ids : slot[i] = "done" => slot'[i] = "done" /\ starts'[i] = starts[i]]_vars
